@@ -385,8 +385,8 @@ def session_stream(ctx, stats, rng, thorough):
             else:
                 stats["session-tie:equal"] += 1
     # the fragment Lang/NameSession.v speaks about, through the extracted model (mode = what the inventory of the current source allows)
-    for _ in range(60 if thorough else 15):
-        texts_m, wire = Q.name_session(rng, rng.randint(2, 5))
+    for _ in range(10 if thorough else 3):
+        texts_m, wire = Q.name_session(rng, rng.randint(12, 20))
         real = C.run_impl("c11_impl.py", {"cases": [["session", texts_m, True]], "limit": 30})[0]
         n_model += len(texts_m)
         if any(r["exc"] for r in real):
@@ -455,6 +455,8 @@ def target_stream(ctx, stats, rng, thorough, extra_scripts):
             if r["proc"] or r["pio_ran"]:
                 ctx.fail("target(upload=False) - transpile only - started an external process / touched the network" + (" (the `pio` on PATH was run: " + r["pio_ran"].strip() + ")" if r["pio_ran"] else ""),
                          case, "no process, no network access", {"audit events": r["proc"], "pio ran with": r["pio_ran"], "outcome": r["exc"] or "returned"}, key="target-process:" + (r["proc"][0][0] if r["proc"] else "pio"))
+            if r.get("env"):
+                ctx.fail("target(upload=False) read the process environment", case, "no environment access (REDUINO_VERIF and tempfile's TMPDIR / TEMP / TMP excepted)", r["env"], key="target-env:" + r["env"][0])
             if r["exc"] == "Timeout":
                 ctx.fail("target(upload=False) did not terminate within the (generous) limit", case, "prompt termination", r, key="target-timeout")
             elif r["exc"] not in (None, "ValueError", "SyntaxError"):
